@@ -70,10 +70,10 @@ func gather(reg *prometheus.Registry, name string) []series {
 	return out
 }
 
-func checkRuns(r *hlib.Rec, labels map[string]string, scenario string, runs []mix, rep int) {
+func checkRuns(r *hlib.Rec, labels map[string]string, scenario string, runs []mix, rep int, enabled bool) {
 	r.Eval()
 	reg := prometheus.NewRegistry()
-	m := metrics.NewInstance(reg, true, labels)
+	m := metrics.NewInstance(reg, enabled, labels)
 	var lk []string
 	for k := range labels {
 		lk = append(lk, k)
@@ -83,7 +83,7 @@ func checkRuns(r *hlib.Rec, labels map[string]string, scenario string, runs []mi
 	for _, x := range runs {
 		rn = append(rn, x.name)
 	}
-	input := fmt.Sprintf("labels=%v scenario=%s runs=%v", lk, scenario, rn)
+	input := fmt.Sprintf("labels=%v scenario=%s runs=%v iteration-metrics-enabled=%v", lk, scenario, rn, enabled)
 	r.SampleCase(input)
 	for ri, mx := range runs {
 		passes, failsN := uint64(0), uint64(0)
@@ -132,7 +132,12 @@ func checkRuns(r *hlib.Rec, labels map[string]string, scenario string, runs []mi
 			got[s.labels["result"]] += s.count
 			checkLabels(r, s.labels, labels, scenario, "iteration", input, at)
 		}
-		if got["success"] != res.Success || got["fail"] != res.Fail || got["dropped"] != res.Dropped {
+		if !enabled {
+			// iteration metrics switched off (what the CLI does without a push gateway): nothing may be exported for iterations
+			if got["success"]+got["fail"]+got["dropped"] != 0 {
+				r.Fail("C16/iteration-counts", "exported-although-disabled", fmt.Sprintf("%s: %v", at, got), input)
+			}
+		} else if got["success"] != res.Success || got["fail"] != res.Fail || got["dropped"] != res.Dropped {
 			kind := "differs-from-result"
 			if ri > 0 && (got["success"] > res.Success || got["fail"] > res.Fail || got["dropped"] > res.Dropped) {
 				kind = "earlier-run-mixed-in"
@@ -220,7 +225,10 @@ func suite(reps int, maxRuns int) hlib.Suite {
 						for k, v := range labels {
 							l2[k] = v
 						}
-						checkRuns(r, l2, scen, sq, rep)
+						checkRuns(r, l2, scen, sq, rep, true)
+						if rep == 0 && len(labels) <= 1 {
+							checkRuns(r, l2, scen, sq, rep, false)
+						}
 					}
 				}
 			}
